@@ -142,4 +142,227 @@ theorem invC_produceS {c : Cfg} {s : St} {tid : Nat} {t : Task} (hA : InvA c s) 
     show upd s.seen 0 (s.seen 0 ++ [s.produced]) 0 = (produceS c s).numbered
     rw [upd_same, hnumd, h0, hC.seen0 h0]; simp
 
+theorem invC_err {c : Cfg} {s : St} (hC : InvC c s) : InvC c { s with err := true } :=
+  ⟨hC.own1, hC.oooIn, hC.oooFill, hC.oooOwn, hC.oooLe, hC.oooEx, hC.ordSlot, hC.ordOwn, hC.numT, hC.numP, hC.rdyT,
+   hC.rdyP, hC.high0, hC.seenLen, hC.seenPre, hC.seen0⟩
+
+theorem inOrPast_false_of_own {k : Nat} {t : Task} (h : own k t = false) : inOrPast k t = false := by
+  cases h' : inOrPast k t with
+  | false => rfl
+  | true => rw [inOrPast_le_own k t h'] at h; cases h
+
+/-- a task that carries nothing moves to another program counter at which it carries nothing -/
+theorem invC_idle {c : Cfg} {s : St} {tid : Nat} {t : Task} (hC : InvC c s) (s' : St) (extra : List Task) (t' : Task)
+    (ht : s.tasks[tid]? = some t)
+    (hbufs : s'.bufs = s.bufs) (hnum : s'.numbered = s.numbered)
+    (hseen : ∀ k, (c.mode k).ordered = true → s'.seen k = s.seen k)
+    (htasks : s'.tasks = (s.tasks ++ extra).set tid t')
+    (hnot : ∀ k, own k t = false) (hnot' : ∀ k, own k t' = false) (hnc' : carries t' = false)
+    (hextra : ∀ x ∈ extra, carries x = false ∧ ∀ k, own k x = false) : InvC c s' :=
+  invC_frame hC s' extra t' ht hbufs hnum hseen htasks
+    (fun k _ => ⟨by rw [hnot, hnot'], by rw [inOrPast_false_of_own (hnot k), inOrPast_false_of_own (hnot' k)]⟩)
+    (fun h => by rw [hnc'] at h; cases h) hextra
+
+theorem fresh_extra : ∀ x ∈ [fresh], carries x = false ∧ ∀ k, own k x = false := by
+  intro x hx; simp at hx; subst hx
+  exact ⟨by simp [carries, carriesPc, fresh], fun k => by simp [own, ownPc, fresh]⟩
+
+/-- a carrying task moves on with `advance` (after `fetch_sub`, or after a parallel filter returned) -/
+theorem invC_advance {c : Cfg} {s : St} {tid : Nat} {t : Task} (hC : InvC c s) (s' : St) (extra : List Task)
+    (ht : s.tasks[tid]? = some t) (hc : carries t = true) (hpc : t.pc ≠ .put)
+    (hbufs : s'.bufs = s.bufs) (hnum : s'.numbered = s.numbered)
+    (hseen : ∀ k, (c.mode k).ordered = true → s'.seen k = s.seen k)
+    (htasks : s'.tasks = (s.tasks ++ extra).set tid (advance c t))
+    (hnot : ∀ k, (c.mode k).serial = true → own k t = false)
+    (hextra : ∀ x ∈ extra, carries x = false ∧ ∀ k, own k x = false) : InvC c s' :=
+  invC_frame hC s' extra (advance c t) ht hbufs hnum hseen htasks
+    (fun k hk => ⟨by rw [hnot k hk, own_advance c t k hk],
+      by rw [inOrPast_false_of_own (hnot k hk), inOrPast_advance c t k hk]⟩)
+    (fun _ => Or.inl ⟨hc, advance_info c t, assigned_advance c t hpc⟩) hextra
+
+theorem invC_step {c : Cfg} (hv : c.Valid) {s : St} (tid : Nat) (hA : InvA c s) (hC : InvC c s) :
+    InvC c (step c s tid) := by
+  cases h : s.tasks[tid]? with
+  | none => rw [step_none h]; exact hC
+  | some t =>
+    have hso := hA.stage tid t h
+    cases hpc : t.pc with
+    | dead => rw [step_dead h hpc]; exact hC
+    | start =>
+      have hnot : ∀ k, own k t = false := fun k => by simp [own, ownPc, hpc]
+      cases hm : (c.mode 0).serial with
+      | true =>
+        rw [step_startS h hpc hm]
+        exact invC_idle hC _ [] { fresh with pc := .inCallS } h rfl rfl (fun _ _ => rfl) (by simp [setTask]) hnot
+          (fun k => by simp [own, ownPc]) (by simp [carries, carriesPc]) (by simp)
+      | false =>
+        cases he : s.eoi with
+        | true =>
+          rw [step_startP_eoi h hpc hm he]
+          exact invC_idle hC _ [] { pc := .dead } h rfl rfl (fun _ _ => rfl) (by simp [kill]) hnot
+            (fun k => by simp [own, ownPc]) (by simp [carries, carriesPc]) (by simp)
+        | false =>
+          rw [step_startP h hpc hm he]
+          exact invC_idle hC _ [] { fresh with pc := .fsubP } h rfl rfl (fun _ _ => rfl) (by simp [setTask]) hnot
+            (fun k => by simp [own, ownPc]) (by simp [carries, carriesPc]) (by simp)
+    | inCallS =>
+      by_cases hp : s.produced < c.total
+      · by_cases hn : c.n = 1
+        · rw [step_inCallS_one h hpc hp hn]; exact invC_produceS hA hC h hpc _ fresh (Or.inl rfl)
+        · rw [step_inCallS h hpc hp hn]; exact invC_produceS hA hC h hpc _ _ (Or.inr rfl)
+      · rw [step_inCallS_stop h hpc hp]
+        exact invC_idle hC _ [] { pc := .dead } h rfl rfl (fun _ _ => rfl) (by simp [kill])
+          (fun k => by simp [own, ownPc, hpc]) (fun k => by simp [own, ownPc]) (by simp [carries, carriesPc]) (by simp)
+    | fsubS =>
+      have hc : carries t = true := by simp [carries, carriesPc, hpc]
+      have hnot : ∀ k, (c.mode k).serial = true → own k t = false := fun k _ => by simp [own, ownPc, hpc]
+      rcases Nat.lt_or_ge 1 s.tokens with h1 | h1
+      · rw [step_fsubS_spawn h hpc h1]
+        exact invC_advance hC _ [fresh] h hc (by rw [hpc]; simp) rfl rfl (fun _ _ => rfl) (by simp [setTask, spawn]) hnot
+          fresh_extra
+      · rcases Nat.eq_zero_or_pos s.tokens with h0 | h0
+        · rw [step_fsubS_err h hpc h0]; exact invC_err hC
+        · rw [step_fsubS_last h hpc (by omega)]
+          exact invC_advance hC _ [] h hc (by rw [hpc]; simp) rfl rfl (fun _ _ => rfl) (by simp [setTask]) hnot (by simp)
+    | fsubP =>
+      have hnot : ∀ k, own k t = false := fun k => by simp [own, ownPc, hpc]
+      rcases Nat.lt_or_ge 1 s.tokens with h1 | h1
+      · rw [step_fsubP_spawn h hpc h1]
+        exact invC_idle hC _ [fresh] { t with pc := .callInP } h rfl rfl (fun _ _ => rfl) (by simp [setTask, spawn]) hnot
+          (fun k => by simp [own, ownPc]) (by simp [carries, carriesPc]) fresh_extra
+      · rcases Nat.eq_zero_or_pos s.tokens with h0 | h0
+        · rw [step_fsubP_err h hpc h0]; exact invC_err hC
+        · rw [step_fsubP_last h hpc (by omega)]
+          exact invC_idle hC _ [] { t with pc := .callInP } h rfl rfl (fun _ _ => rfl) (by simp [setTask]) hnot
+            (fun k => by simp [own, ownPc]) (by simp [carries, carriesPc]) (by simp)
+    | callInP =>
+      rw [step_callInP h hpc]
+      exact invC_idle hC _ [] { t with pc := .inCallP } h rfl rfl (fun _ _ => rfl) (by simp [setTask])
+        (fun k => by simp [own, ownPc, hpc]) (fun k => by simp [own, ownPc]) (by simp [carries, carriesPc]) (by simp)
+    | inCallP =>
+      have hpar : (c.mode 0).serial = false := hso.2.2.2 (by simp [parInPc, hpc])
+      by_cases hp : s.produced < c.total
+      · rw [step_inCallP h hpc hp]
+        have hseen : ∀ k, (c.mode k).ordered = true → upd s.seen 0 (s.seen 0 ++ [s.produced]) k = s.seen k := by
+          intro k hk
+          by_cases hk0 : k = 0
+          · subst hk0; rw [ordered_serial hk] at hpar; cases hpar
+          · exact upd_other _ _ _ _ hk0
+        refine invC_frame hC _ [] (advance c { t with stage := 0, info := { item := s.produced } }) h rfl rfl hseen
+          (by simp [setTask]) (fun k hk => ?_) (fun _ => Or.inr ⟨by rw [advance_info], ?_, fun k hk => own_advance c _ k hk⟩)
+          (by simp)
+        · have h1 : own k t = false := by simp [own, ownPc, hpc]
+          rw [h1, own_advance c _ k hk, inOrPast_false_of_own h1, inOrPast_advance c _ k hk]; exact ⟨rfl, rfl⟩
+        · intro hass
+          have := assigned_advance c { t with stage := 0, info := { item := s.produced } } (by simp [hpc]) hass
+          obtain ⟨k, hk, hor⟩ := this
+          have hk0 : k = 0 := by
+            rcases hor with h1 | ⟨h1, _⟩
+            · simp at h1
+            · exact h1
+          subst hk0
+          rw [ordered_serial hk] at hpar; cases hpar
+      · rw [step_inCallP_stop h hpc hp]
+        exact invC_idle hC _ [] { pc := .dead } h rfl rfl (fun _ _ => rfl) (by simp [kill])
+          (fun k => by simp [own, ownPc, hpc]) (fun k => by simp [own, ownPc]) (by simp [carries, carriesPc]) (by simp)
+    | put =>
+      cases hr : (s.bufs t.stage).tryPut t.info with
+      | none => rw [step_put_reject h hpc hr]; exact invC_err hC
+      | some r =>
+        obtain ⟨b', info', tok, p⟩ := r
+        cases p with
+        | true =>
+          rw [step_put_parked h hpc hr]
+          exact invC_put hA hC h hpc hr _ { pc := .dead } rfl rfl rfl (by simp [kill, afterPut]) rfl
+        | false =>
+          rw [step_put_run h hpc hr]
+          exact invC_put hA hC h hpc hr _ { t with pc := .call, info := info' } rfl rfl rfl (by simp [setTask, afterPut]) rfl
+    | call => rw [step_call h hpc]; exact invC_call hA hC h hpc
+    | inFilter =>
+      have hc : carries t = true := by simp [carries, carriesPc, hpc]
+      rw [step_inFilter h hpc]
+      cases hm : (c.mode t.stage).serial with
+      | true =>
+        refine invC_frame hC _ [] { t with pc := .noteDone } h rfl rfl (fun _ _ => rfl) (by simp [setTask])
+          (fun k _ => by simp [own, ownPc, inOrPast, pastCallPc, hpc]) (fun _ => Or.inl ⟨hc, rfl, ?_⟩) (by simp)
+        rintro ⟨k, hk, hor⟩
+        refine ⟨k, hk, ?_⟩
+        rcases hor with h1 | ⟨h1, _⟩
+        · left; exact h1
+        · right; exact ⟨h1, by rw [hpc]; simp⟩
+      | false =>
+        refine invC_advance hC _ [] h hc (by rw [hpc]; simp) rfl rfl (fun _ _ => rfl) (by simp [setTask]) ?_ (by simp)
+        intro k hk
+        by_cases hks : t.stage = k
+        · subst hks; rw [hk] at hm; cases hm
+        · simp [own, hks]
+    | noteDone =>
+      cases hr : (s.bufs t.stage).noteDone.2 with
+      | none =>
+        rw [step_noteDone_none h hpc hr]
+        exact invC_noteDone hA hC h hpc _ [] rfl rfl rfl (by simp [setTask]) (by rw [hr])
+      | some w =>
+        rw [step_noteDone_some h hpc hr]
+        exact invC_noteDone hA hC h hpc _ [{ pc := .call, stage := t.stage, info := w }] rfl rfl rfl
+          (by simp [setTask, spawn]) (by rw [hr])
+    | fadd =>
+      have hnot : ∀ k, own k t = false := fun k => by simp [own, ownPc, hpc]
+      rcases Nat.eq_zero_or_pos s.tokens with h0 | h0
+      · rw [step_fadd_zero h hpc h0]
+        exact invC_idle hC _ [] { t with pc := .ldEoi } h rfl rfl (fun _ _ => rfl) (by simp [setTask]) hnot
+          (fun k => by simp [own, ownPc]) (by simp [carries, carriesPc]) (by simp)
+      · rw [step_fadd_die h hpc h0]
+        exact invC_idle hC _ [] { pc := .dead } h rfl rfl (fun _ _ => rfl) (by simp [kill]) hnot
+          (fun k => by simp [own, ownPc]) (by simp [carries, carriesPc]) (by simp)
+    | ldEoi =>
+      have hnot : ∀ k, own k t = false := fun k => by simp [own, ownPc, hpc]
+      cases he : s.eoi with
+      | true =>
+        rw [step_ldEoi_eoi h hpc he]
+        exact invC_idle hC _ [] { pc := .dead } h rfl rfl (fun _ _ => rfl) (by simp [kill]) hnot
+          (fun k => by simp [own, ownPc]) (by simp [carries, carriesPc]) (by simp)
+      | false =>
+        rw [step_ldEoi h hpc he]
+        exact invC_idle hC _ [] fresh h rfl rfl (fun _ _ => rfl) (by simp [setTask]) hnot
+          (fun k => by simp [own, ownPc, fresh]) (by simp [carries, carriesPc, fresh]) (by simp)
+
+theorem invC_init (c : Cfg) : InvC c (init c) := by
+  have hnew := fun k => TokenBuf.new_wf (c.mode k).ordered
+  have hcnt : ∀ (p : Task → Bool), p fresh = false → (init c).tasks.countP p = 0 := by
+    intro p hp; simp [init, hp]
+  have hown : ∀ k, own k fresh = false := fun k => by simp [own, ownPc, fresh]
+  refine ⟨?_, ?_, ?_, ?_, ?_, ?_, ?_, ?_, ?_, ?_, ?_, ?_, ?_, ?_, ?_, ?_⟩
+  · intro k _; rw [hcnt _ (hown k)]; omega
+  · intro k tok info _ _ ha; simp only [init] at ha; rw [(hnew k).2.2.2.2 tok] at ha; cases ha
+  · intro k tok _ _ h1 h2; simp only [init] at h1 h2; rw [(hnew k).2.1] at h1; rw [(hnew k).2.2.1] at h2; omega
+  · intro k _ _ h1; rw [hcnt _ (hown k)] at h1; omega
+  · intro k _ _; simp only [init]; rw [(hnew k).2.1, (hnew k).2.2.1]; omega
+  · intro k _ _ h1; simp only [init] at h1; rw [(hnew k).2.1, (hnew k).2.2.1] at h1; omega
+  · intro k tok info _ ha; simp only [init] at ha; rw [(hnew k).2.2.2.2 tok] at ha; cases ha
+  · intro k j x _ hx hox
+    have hm := List.mem_of_getElem? hx
+    simp [init] at hm; subst hm
+    rw [hown k] at hox; cases hox
+  · intro j x hx hcx
+    have hm := List.mem_of_getElem? hx
+    simp [init] at hm; subst hm
+    simp [carries, carriesPc, fresh] at hcx
+  · intro k tok info ha; simp only [init] at ha; rw [(hnew k).2.2.2.2 tok] at ha; cases ha
+  · intro j x hx hcx
+    have hm := List.mem_of_getElem? hx
+    simp [init] at hm; subst hm
+    simp [carries, carriesPc, fresh] at hcx
+  · intro k tok info ha; simp only [init] at ha; rw [(hnew k).2.2.2.2 tok] at ha; cases ha
+  · intro k _ _; simp only [init]; rw [(hnew k).2.2.1]; rfl
+  · intro k _ _
+    have : (init c).tasks.countP (inOrPast k) = 0 := hcnt _ (inOrPast_false_of_own (hown k))
+    rw [this]; simp only [init]; rw [(hnew k).2.1]; rfl
+  · intro k _ _; exact List.nil_prefix
+  · intro _; rfl
+
+theorem invABC_reachable {c : Cfg} (hv : c.Valid) (sched : List Tid) :
+    InvA c ((sys c).run sched) ∧ InvB c ((sys c).run sched) ∧ InvC c ((sys c).run sched) :=
+  Sys.inv_run (sys c) (fun s => InvA c s ∧ InvB c s ∧ InvC c s) ⟨invA_init c, invB_init hv, invC_init c⟩
+    (fun s t h => ⟨invA_step hv t h.1, invB_step hv t h.1 h.2.1, invC_step hv t h.1 h.2.2⟩) sched
+
 end TbbVerif.C07
